@@ -120,12 +120,32 @@ def cmd_selftest(argv):
     return 0 if not bad else 2
 
 
+def cmd_mkref(argv):
+    """Refresh the reviewed snapshot used to undo pure renames, and the bounds reference set (run by hand
+    after reviewing the tree; never at check time)."""
+    from .core.canon import make_snapshot
+    from .core.kernels import make_reference
+    from .spec.contracts import CONTRACTS
+    from .rules import c11
+    rels = set()
+    for p in ALL:
+        m = rules_module(p)
+        for rel in getattr(m, 'FILES', []):
+            rels.add(rel)
+    rels |= {'abacusnbody/hod/abacus_hod.py', 'abacusnbody/hod/menv.py'}
+    src = Source()
+    make_snapshot(src.root, sorted(rels))
+    n = make_reference(Source(), c11.FILES, CONTRACTS)
+    print(f'snapshot of {len(rels)} files, {len(n)} reference triples')
+    return 0
+
+
 def main():
     if len(sys.argv) < 2:
         print(__doc__)
         return 2
     cmd, argv = sys.argv[1], sys.argv[2:]
-    fn = dict(check=cmd_check, selfcheck=cmd_selfcheck, explain=cmd_explain, selftest=cmd_selftest).get(cmd)
+    fn = dict(check=cmd_check, selfcheck=cmd_selfcheck, explain=cmd_explain, selftest=cmd_selftest, mkref=cmd_mkref).get(cmd)
     if fn is None:
         print(__doc__)
         return 2
